@@ -956,7 +956,15 @@ type _structAssemblerRepr _structAssembler
 func (w *_structAssemblerRepr) AssembleKey() datamodel.NodeAssembler {
 	switch stg := reprStrategy(w.schemaType).(type) {
 	case schema.StructRepresentation_Map:
-		return (*_structAssembler)(w).AssembleKey()
+		asm := (*_structAssembler)(w).AssembleKey()
+		// The key supplied here is a representation key: a repeated field is found under its field name.
+		w.curKey.finish = func() error {
+			if name, ok := inboundMappedKey(w.schemaType, stg, w.curKey.val.String()); ok {
+				return (*_structAssembler)(w).checkRepeatedField(name)
+			}
+			return nil
+		}
+		return asm
 	case schema.StructRepresentation_Stringjoin,
 		schema.StructRepresentation_StringPairs:
 		// TODO: perhaps the ErrorWrongKind type should also be extended to explicitly describe whether the method was applied on bare DM, type-level, or repr-level.
